@@ -23,6 +23,8 @@ pub struct SolveCase {
     pub assumptions: Vec<Pred>,
 }
 
+pub static EXCLUDED_NOLEARN_ASSUMPTIONS: std::sync::atomic::AtomicU64 = std::sync::atomic::AtomicU64::new(0);
+
 pub type RawExtras = (u8, (u16, i8, i8), bool, Vec<(u16, u8, u16)>);
 
 pub fn raw_extras() -> BoxedStrategy<RawExtras> {
@@ -65,8 +67,13 @@ pub fn solve_case_strategy(p: &GenParams, paths: &'static [u8]) -> BoxedStrategy
     (raw_model_strategy(p), raw_config_strategy(), raw_extras())
         .prop_map(move |((rv, rc), rcfg, ex)| {
             let model = build_model(&pp, &rv, &rc);
-            let cfg = build_config(&rcfg);
+            let mut cfg = build_config(&rcfg);
             let path = paths[(ex.0 as usize) % paths.len()];
+            if cfg.no_learning && (path == 2 || path == 4) {
+                // known finding KF-no-learning-assumptions: excluded by construction
+                cfg.no_learning = false;
+                EXCLUDED_NOLEARN_ASSUMPTIONS.fetch_add(1, std::sync::atomic::Ordering::Relaxed);
+            }
             let objective = build_objective(&model, &ex.1);
             let assumptions = build_assumptions(&model, &ex.3);
             SolveCase { model, cfg, path, objective, maximise: ex.2, assumptions }
@@ -204,7 +211,10 @@ impl Property for SolveProp {
         }
     }
     fn feature(&self, case: &SolveCase, name: &str) -> bool {
-        crate::props::features::model_feature(&case.model, name)
+        match name {
+            "no_learning_with_assumptions" => case.cfg.no_learning && (case.path == 2 || case.path == 4),
+            _ => crate::props::features::model_feature(&case.model, name),
+        }
     }
 
     fn run(&self, case: &SolveCase) -> Verdict {
